@@ -85,6 +85,56 @@ func vpH_C05_Relationship()          { vpC05Doc(vpTypeIndex("Relationship")) }
 func vpH_C05_Tombstone()             { vpC05Doc(vpTypeIndex("Tombstone")) }
 func vpH_C05_Link()                  { vpC05Doc(vpTypeIndex("Link")) }
 
+// documents without an id, bearing each type name of the vocabulary and one further property:
+// the decoder keeps them (it may only discard what says nothing) and reads the property
+func vpH_C05_idless_typed() {
+	c := vpVocabConsts[vpChoice(len(vpVocabConsts))]
+	spec, ok := vpSpec[c.Value]
+	if !ok {
+		vpReach("end")
+		return
+	}
+	ti := vpTypeIndex(spec.goType)
+	fields := vpFieldsOf(ti)
+	f := 2 + vpChoice(len(fields)-2)
+	if vpShapes(fields[f].Kind) == 0 || fields[f].Term == "" {
+		vpReach("end")
+		return
+	}
+	x := vpNew(ti)
+	if l, ok := x.(*Link); ok {
+		l.Type = c.Value
+	} else {
+		_ = OnObject(x, func(o *Object) error { o.Type = c.Value; return nil })
+	}
+	vpSetField(x, f, 0, 'a')
+	cell := string(c.Value) + "." + fields[f].Name
+	doc := vpDocOf(x, 0)
+	y, err := UnmarshalJSON(doc)
+	vpAssert("idless/decode/no-error/"+cell, err == nil)
+	vpAssert("idless/decode/kept/"+cell, y != nil)
+	if y == nil {
+		vpReach("end")
+		return
+	}
+	want := vpCloneItem(x)
+	vpC05Normal(want)
+	got := vpCloneItem(y)
+	vpC05Normal(got)
+	vpDiffItems("idless/reads-the-document/"+cell, want, got, nil)
+	// the same document nested in an item position of another one
+	outer := []byte(`{"id":"https://h.ex/outer","type":"Note","icon":` + string(doc) + `}`)
+	o, err := UnmarshalJSON(outer)
+	vpAssert("idless/nested/decodes/"+cell, err == nil && o != nil)
+	if ob, ok := o.(*Object); ok {
+		vpAssert("idless/nested/kept/"+cell, ob.Icon != nil)
+		if ob.Icon != nil {
+			vpAssert("idless/nested/go-type/"+cell, vpSameGoType(ob.Icon, x))
+		}
+	}
+	vpReach("end")
+}
+
 // documents whose texts need escaping: decode, then the re-encoding is a fixpoint
 func vpH_C05_text_fixpoint() {
 	texts := []string{`a\u2028b`, `\u2029`, `<p>Hi & \"you\"</p>`, `line1\nline2\ttab`, `\ud83d\ude00 \u00e9`, `C:\\new\\table`, `\\u0041`, `\u0001\u001f\u007f`}
